@@ -193,9 +193,26 @@ SPAN_KIND = {'range': 0, 'list_str': 0, 'tuple_str': 0, 'list_dup': 0, 'np_int':
              # 4*year + quarter - 1, a year string is the key -(year)); period_q keeps the recorded table as a cross-check
              'period_qm': 4, 'period_qm_late': 4}
 PERIOD_MODELLED = ('period_qm', 'period_qm_late')
+# spans of integer labels that histories reindex (labels are their own ids, so ids stay meaningful across reindex())
+RX_KIND = {'rx_list': 0, 'rx_tuple': 0, 'rx_np': 1, 'rx_pd': 3}
+SPAN_KIND.update(RX_KIND)
+
+
+def span_from_labels(span_type, labels):
+    import numpy as np
+    if span_type == 'rx_list':
+        return list(labels)
+    if span_type == 'rx_tuple':
+        return tuple(labels)
+    if span_type == 'rx_np':
+        return np.array(labels, dtype=int)
+    if span_type == 'rx_pd':
+        import pandas as pd
+        return pd.Index(list(labels))
+    raise AssertionError(span_type)
 SPAN_NODUP = ('range', 'list_str', 'tuple_str', 'np_int', 'np_str', 'pd_int', 'pd_str', 'period_q', 'range0', 'list_empty', 'np_int0', 'pd_int0',
-              'period_qm', 'period_qm_late')
-INT_LABELS = ('range', 'np_int', 'pd_int', 'range0', 'np_int0', 'pd_int0')
+              'period_qm', 'period_qm_late', 'rx_list', 'rx_tuple', 'rx_np', 'rx_pd')
+INT_LABELS = ('range', 'np_int', 'pd_int', 'range0', 'np_int0', 'pd_int0', 'rx_list', 'rx_tuple', 'rx_np', 'rx_pd')
 
 
 def make_span(span_type, n):
@@ -205,6 +222,8 @@ def make_span(span_type, n):
     dupnm = ['p%d' % (1 if i == 0 else 0 if i == 1 else 1 if i == 2 else i) for i in range(n)]   # p1 p0 p1 p3 ...: repeated, not monotonic
     dupin = ['p%d' % (1 if i == 2 else i) for i in range(n)]                  # p0 p1 p1 p3 p4: periods 1 and 2 share a label
     dupin_nm = ['q' if i in (1, 3) else 'p%d' % i for i in range(n)]            # p0 q p2 q p4: periods 1 and 3 share a label
+    if span_type in RX_KIND:
+        return span_from_labels(span_type, list(range(2000, 2000 + n)))
     if span_type in ('list_dupin', 'list_dupin_nm'):
         return dupin if span_type == 'list_dupin' else dupin_nm
     if span_type in ('np_dupin', 'np_dupin_nm'):
@@ -278,6 +297,8 @@ def span_ids(span, n, span_type=None):
     quarter ordinal 4*year + quarter - 1)"""
     if span_type in PERIOD_MODELLED:
         return [4 * int(x.year) + int(x.quarter) - 1 for x in span]
+    if span_type in RX_KIND:
+        return [int(x) for x in span]
     ids = []
     for i in range(n):
         j = 0
@@ -576,25 +597,73 @@ def impl_solve_parsed(case):
 
 
 # =========================================================================== histories of public solver calls on one instance (C06)
+def _hist_state(m, nvars):
+    return ([[lib.fhex(x) for x in m.__dict__['_V%d' % i]] for i in range(nvars)], [str(x) for x in m.__dict__['_status']],
+            [int(x) for x in m.__dict__['_iterations']])
+
+
+def _apply_edit(m, call, st, n):
+    """the state edits of a history; returns the object to go on with"""
+    api = call['api']
+    if api == 'copy':
+        return m.copy()
+    if api == 'reindex_same':
+        return m.reindex(make_span(st, n))
+    if api == 'reindex':
+        return m.reindex(span_from_labels(st, call['labels']))
+    if api == 'set_row':
+        setattr(m, 'V%d' % call['var'], [lib.unhex(x) for x in call['values']])
+        return m
+    if api == 'set_cell':
+        getattr(m, 'V%d' % call['var'])[call['pos']] = lib.unhex(call['value'])
+        return m
+    raise AssertionError(api)
+
+
+EDITS = ('copy', 'reindex_same', 'reindex', 'set_row', 'set_cell')
+
+
 def impl_hist(case):
-    """Runs a history of solve_t / solve_period / solve calls (exceptions caught) on ONE scripted model instance."""
+    """Runs a history of solve_t / solve_period / solve calls (exceptions caught) interleaved with copy(), reindex(same span),
+    whole-series list assignments and direct cell assignments on ONE scripted model instance.  A twin instance goes through the
+    same history with every solve() replaced by the plain loop of solve_t over the positions the statement names and every
+    solve_period(label) by solve_t(position); after each step outcome class and (values, status, iterations) are compared."""
     import fsic
     import scripted
     n, st = case['n'], case['span_type']
     cls = scripted.make_class(fsic.BaseModel, case['nvars'], case['check'], case['endo'])
     span = make_span(st, n)
     ids = span_ids(span, n, st)
-    m = scripted.instantiate(cls, make_span(st, n), case['vals'], case['status'], case['iters'], case['scripts'],
-                             lags=case.get('lags', 0), leads=case.get('leads', 0))
+
+    def fresh():
+        return scripted.instantiate(cls, make_span(st, n), case['vals'], case['status'], case['iters'], case['scripts'],
+                                    lags=case.get('lags', 0), leads=case.get('leads', 0))
+    m, tw = fresh(), fresh()
+    twin_ok, twin_diff = True, []
 
     def lab_id(lab):
         for j in range(n):
             if bool(span[j] == lab):
                 return ids[j]
         return -1
-    outs, snaps = [], []
-    for call in case['calls']:
+    outs, snaps, steps = [], [], []
+    KEYS = ('_evlog', '_passvecs', '_raised', '_blocked', '_warn_stored')
+    for k, call in enumerate(case['calls']):
+        if call['api'] in EDITS:
+            m = _apply_edit(m, call, st, n)
+            if twin_ok:
+                tw = _apply_edit(tw, call, st, n)
+            if call['api'] == 'reindex':
+                span = span_from_labels(st, call['labels'])
+                n = len(call['labels'])
+                ids[:] = [int(x) for x in call['labels']]
+            outs.append(['ret', [], [], []])
+            snaps.append([str(x) for x in m.__dict__['_status']])
+            steps.append(None)
+            continue
         kw = solve_kwargs(call['opts'])
+        pre = _hist_state(m, case['nvars'])
+        marks = {key: len(m.__dict__.get(key, [])) for key in KEYS}
         try:
             if call['api'] == 'solve_t':
                 outs.append(['ret', bool(m.solve_t(call['t'], **kw))])
@@ -607,13 +676,60 @@ def impl_hist(case):
             c = e.__cause__
             outs.append(['raise', type(e).__name__, type(c).__name__ if c is not None else None])
         snaps.append([str(x) for x in m.__dict__['_status']])
-    obs = {'outs': outs, 'snaps': snaps, 'ids': ids}
+        sl = {key: m.__dict__.get(key, [])[marks[key]:] for key in KEYS}
+        steps.append({'pre': list(pre), 'post': list(_hist_state(m, case['nvars'])), 'log': sl['_evlog'],
+                      'passvecs': [[lib.fhex(x) for x in v] for v in sl['_passvecs']], 'raised': sl['_raised'],
+                      'blocked': [[b[0], b[1], lib.fhex(float.fromhex(b[2]) if b[2].startswith(('0x', '-0x')) else float(b[2]))] for b in sl['_blocked']],
+                      'warn_stored': sl['_warn_stored']})
+        # ---- the twin: single-period calls only
+        if not twin_ok:
+            continue
+        if call['api'] == 'solve_t':
+            want = None
+            try:
+                want = ['ret', bool(tw.solve_t(call['t'], **kw))]
+            except Exception as e:
+                c = e.__cause__
+                want = ['raise', type(e).__name__, type(c).__name__ if c is not None else None]
+        else:
+            exp = expected_range(dict(case, n=n, start=call['start'], end=call.get('end'), entry=call['api']))
+            if exp is None or exp[0] == 'empty':
+                twin_ok = False
+                continue
+            if call['api'] == 'solve' and call['opts']['min_iter'] > call['opts']['max_iter']:
+                want = ['raise', 'ValueError']          # solve() tests min_iter / max_iter before it looks at the labels
+            elif exp[0] == 'keyerror':
+                want = ['raise', 'KeyError']
+            else:
+                positions = [exp[1]] if call['api'] == 'solve_period' else list(range(exp[1], exp[2] + 1))
+                flags, want = [], None
+                for t in positions:
+                    try:
+                        flags.append(bool(tw.solve_t(t, **kw)))
+                    except Exception as e:
+                        c = e.__cause__
+                        want = ['raise', type(e).__name__, type(c).__name__ if c is not None else None]
+                        break
+                if want is None:
+                    want = ['ret', flags[0]] if call['api'] == 'solve_period' else ['ret', [ids[q] for q in positions], positions, flags]
+        got = outs[-1]
+        if got[:len(want)] != want or _hist_state(m, case['nvars']) != _hist_state(tw, case['nvars']):
+            twin_diff.append([k, got[:4], want, _hist_state(m, case['nvars'])[1:], _hist_state(tw, case['nvars'])[1:]])
+    obs = {'outs': outs, 'snaps': snaps, 'ids': span_ids(make_span(st, case['n']), case['n'], st), 'twin_diff': twin_diff, 'steps': steps}
     obs.update(observe_state(m, case['nvars']))
     return obs
 
 
 def c_hcall(case, ids, call):
     opt = lambda sp: 'None' if sp is None else '(Some %s)' % lib.cZ(spec_id(case, ids, sp))
+    if call['api'] in ('copy', 'reindex_same'):
+        return 'HCopy'
+    if call['api'] == 'reindex':
+        return '(HReindex %s)' % lib.clist(lib.cZ(x) for x in call['labels'])
+    if call['api'] == 'set_row':
+        return '(HSetRow %d%%nat %s)' % (call['var'], lib.clist(lib.cfloat(x) for x in call['values']))
+    if call['api'] == 'set_cell':
+        return '(HSetCell %d%%nat %s %s)' % (call['var'], lib.cZ(call['pos']), lib.cfloat(call['value']))
     if call['api'] == 'solve_t':
         return '(HSolveT %s %s)' % (c_opts(call['opts']), lib.cZ(call['t']))
     if call['api'] == 'solve_period':
@@ -625,6 +741,8 @@ def c_hout(case, ids, call, out):
     import scripted
     if out[0] == 'raise':
         return c_outcome(out, scripted.CAUSE_TAG)
+    if call['api'] in EDITS:
+        return '(Ret (0%nat, []))'
     if call['api'] == 'solve_t':
         return '(Ret (1%%nat, [(0, %s, %s)]))' % (lib.cZ(call['t']), lib.cbool(out[1]))
     if call['api'] == 'solve_period':
@@ -634,13 +752,19 @@ def c_hout(case, ids, call, out):
 
 
 def c_hcase(case, obs):
-    ids = obs['ids']
+    ids0 = list(obs['ids'])
+    ids, calls, outs = list(ids0), [], []
+    for c, o in zip(case['calls'], obs['outs']):
+        calls.append(c_hcall(case, ids, c))          # the label ids of the span current at that step
+        outs.append(c_hout(case, ids, c, o))
+        if c['api'] == 'reindex':
+            ids = [int(x) for x in c['labels']]
     return '(mkHCase %s %s %d%%nat %s %s %s %s %s)' % (
-        c_scripts(case['scripts']), c_desc(case), SPAN_KIND[case['span_type']], lib.clist(lib.cZ(i) for i in ids),
-        lib.clist(c_hcall(case, ids, c) for c in case['calls']),
+        c_scripts(case['scripts']), c_desc(case), SPAN_KIND[case['span_type']], lib.clist(lib.cZ(i) for i in ids0),
+        lib.clist(calls),
         c_state(case['vals'], case['status'], case['iters'], []),
         c_state(obs['vals'], obs['status'], obs['iters'], obs['log']),
-        lib.clist(c_hout(case, ids, c, o) for c, o in zip(case['calls'], obs['outs'])))
+        lib.clist(outs))
 
 
 PREAMBLE_HIST = PREAMBLE_ALL.replace('Fsic.Solver.SolveAllF.', 'Fsic.Solver.SolveAllF Fsic.Solver.SolveAllHistF.')
@@ -653,5 +777,115 @@ def correspond_hist(cases, obs, tag):
 
 def explain_hist(case, obs):
     c = c_hcase(case, obs)
-    return lib.coq_eval('explain_hist', PREAMBLE_HIST, 'let c := %s in run_hist (h_scripts c) (h_desc c) (h_kind c) (h_span c) '
-                        '(length (status (h_state c))) (h_calls c) (h_state c)' % c)[-3000:]
+    return lib.coq_eval('explain_hist', PREAMBLE_HIST, 'let c := %s in run_hist (h_scripts c) (h_desc c) (h_kind c) (h_calls c) (h_state c, h_span c)' % c)[-3000:]
+
+
+HIST_TYPES = ['range', 'list_str', 'tuple_str', 'np_int', 'np_str', 'pd_int', 'pd_str', 'period_qm', 'range0', 'list_dupin', 'np_dupin_nm', 'pd_dupin',
+              'np_dup', 'np_dupnm', 'rx_list', 'rx_np', 'rx_pd', 'rx_tuple', 'rx_np', 'rx_pd']
+
+
+def hist_case(rng, errs=('raise', 'raise', 'skip', 'skip', 'ignore', 'replace')):
+    """A history on one instance: solver calls (solve_t with both spellings of t, solve_period, solve; each with its own options,
+    offsets included; models with and without lags / leads) interleaved with copy(), reindex(same span), whole-series list
+    assignments and direct cell assignments (NaN included); periods are re-solved, so statuses get overwritten."""
+    n = rng.choice([2, 3, 4])
+    st = rng.choice(HIST_TYPES)
+    lags, leads = (rng.choice([0, 1]), rng.choice([0, 1])) if rng.random() < 0.35 else (0, 0)
+    c = solve_case(span_type=st, n=n, nvars=2, check=(0,), endo=(0,), lags=lags, leads=leads)
+    c['kind'] = 'hist'
+    del c['opts'], c['start'], c['end'], c['entry']
+    bad = [float('nan'), float('inf'), float('-inf')]
+    scripts = {}
+    for p in range(n + (3 if st in RX_KIND else 0)):
+        r = rng.random()
+        v = 1.5 + p
+        vals = [1.0 + p, v, v, v]
+        if r < 0.2:
+            vals[rng.randrange(3)] = rng.choice(bad)
+        elif r < 0.3:
+            vals = [1.0, 2.0, 1.0, 2.0]
+        passes = settle_passes(0, vals)
+        if 0.3 <= r < 0.38:
+            passes[rng.randrange(3)] = [['raise', rng.choice([10, 12])]]
+        elif 0.38 <= r < 0.46:
+            passes[rng.randrange(3)] = [['warnset', 0, lib.fhex(rng.choice([float('inf'), 3.0]))]]
+        elif 0.46 <= r < 0.6:
+            # a pass that depends on the state: V0 := 0.5 * V0 + const (so seeding by offset / assignments matters)
+            passes = [[['affine', 0, lib.fhex(0.5), 0, lib.fhex(1.0 + p)]] for _ in range(6)]
+        scripts[str(p)] = {'passes': passes}
+        if rng.random() < 0.05:
+            scripts[str(p)]['after' if rng.random() < 0.5 else 'before'] = [['raise', 13]]
+    c['scripts'] = scripts
+    specs = label_specs(st, n)
+    calls = []
+    labels = list(range(2000, 2000 + n))
+    fresh_label = [3000]
+    for _ in range(rng.randint(2, 7)):
+        r = rng.random()
+        if st in RX_KIND and rng.random() < 0.2 and calls:
+            # reindex() onto another span: periods prepended / appended / dropped / reversed, so labels move to other positions
+            how = rng.choice(['prepend', 'prepend', 'append', 'drop_first', 'reverse', 'same'])
+            if how == 'prepend' and len(labels) <= n + 1:
+                labels = [fresh_label[0]] + labels
+                fresh_label[0] += 1
+            elif how == 'append' and len(labels) <= n + 1:
+                labels = labels + [fresh_label[0]]
+                fresh_label[0] += 1
+            elif how == 'drop_first' and len(labels) > 2:
+                labels = labels[1:]
+            elif how == 'reverse':
+                labels = labels[::-1]
+            calls.append({'api': 'reindex', 'labels': list(labels)})
+            specs = label_specs(st, len(labels))
+            continue
+        if r < 0.1:
+            calls.append({'api': 'copy'})
+            continue
+        if r < 0.15 and st in SPAN_NODUP and st not in PERIOD_MODELLED and st not in RX_KIND:
+            calls.append({'api': 'reindex_same'})
+            continue
+        if r < 0.25:
+            calls.append({'api': 'set_row', 'var': rng.randrange(2), 'values': [lib.fhex(rng.choice([0.0, 1.0, 2.5, -1.0] + (bad if rng.random() < 0.3 else [])))
+                                                                                for _ in range(len(labels))]})
+            continue
+        if r < 0.35:
+            p = rng.randrange(len(labels))
+            calls.append({'api': 'set_cell', 'var': rng.randrange(2), 'pos': p if rng.random() < 0.7 else p - len(labels),
+                          'value': lib.fhex(rng.choice([float('nan'), float('nan'), float('inf'), 0.0, 7.0]))})
+            continue
+        mx = rng.choice([1, 2, 3, 4, 5, 8])
+        o = dict(min_iter=rng.choice([0, 0, 1, 2, mx]) if rng.random() < 0.9 else mx + 1, max_iter=mx, tol=lib.fhex(rng.choice([1e-10, 1e-10, 0.75])),
+                 offset=rng.choice([0, 0, 0, -1, 1, -2]), failures=rng.choice(['raise', 'ignore']),
+                 errors=rng.choice(errs) if rng.random() < 0.95 else 'bogus', catch_first_error=rng.random() < 0.5)
+        api = rng.choice(['solve_t', 'solve_t', 'solve_period', 'solve', 'solve'])
+        if api == 'solve_t':
+            p = rng.randrange(len(labels))
+            calls.append({'api': api, 't': p if rng.random() < 0.6 else p - len(labels), 'opts': o})
+        elif api == 'solve_period':
+            calls.append({'api': api, 'start': rng.choice(specs[1:]), 'opts': o})
+        else:
+            calls.append({'api': api, 'start': rng.choice(specs + [None, None]), 'end': rng.choice(specs + [None, None]), 'opts': o})
+    c['calls'] = calls
+    return c
+
+
+def hist_steps_as_solve_t(case, obs):
+    """Every solve_t step of a history, and every solve_period step whose label names one period, as a stand-alone solve_t-format
+    (case, observation) pair: the state before the step is the case's initial state, the slices of the event / pass records made
+    during the step are its observation.  Lets the single-call statements be evaluated at EVERY step of a history."""
+    for k, (call, step) in enumerate(zip(case['calls'], obs['steps'])):
+        if step is None or call['api'] not in ('solve_t', 'solve_period'):
+            continue
+        if call['api'] == 'solve_t':
+            t, entry = call['t'], 'solve_t'
+        else:
+            exp = expected_range(dict(case, n=len(step['pre'][1]), start=call['start'], end=None, entry='solve_period'))
+            if exp is None or exp[0] != 'range':
+                continue
+            t, entry = exp[1], 'solve_period'
+        c = {'nvars': case['nvars'], 'check': case['check'], 'endo': case['endo'], 'n': len(step['pre'][1]), 't': t, 'vals': step['pre'][0],
+             'status': step['pre'][1], 'iters': step['pre'][2], 'opts': call['opts'], 'scripts': case['scripts'], 'entry': entry,
+             'lags': case.get('lags', 0), 'leads': case.get('leads', 0)}
+        o = {'out': obs['outs'][k], 'vals': step['post'][0], 'status': step['post'][1], 'iters': step['post'][2], 'log': step['log'],
+             'passvecs': step['passvecs'], 'raised': step['raised'], 'blocked': step['blocked'], 'warn_stored': step['warn_stored']}
+        yield k, c, o
